@@ -403,6 +403,134 @@ func runC18(c *rt.Ctx) {
 		}
 	}
 
+	// ---- series told apart by user tags: histograms, counters and gauges that share a name and
+	// differ in their tags, every subset of the histograms idle in a period. Every series of the
+	// page appears once, under its own tags, with its own numbers.
+	if c.Mine(3) {
+		name := fmt.Sprintf("veriftag%d", c.Shard)
+		tagsets := []metrics.Tags{{"port": "main"}, {"port": "batch"}, nil, {"backend": "l1", "port": "main"}, {"port": "main", "zone": "b"}}
+		var hids, cids, gids []uint32
+		for _, ts := range tagsets {
+			hids = append(hids, metrics.AddHistogram(name, false, ts))
+			cids = append(cids, metrics.AddCounter(name+"_ctr", ts))
+			gids = append(gids, metrics.AddIntGauge(name+"_gauge", ts))
+		}
+		userKey := func(ts metrics.Tags) string {
+			var kv []string
+			for k, v := range ts {
+				kv = append(kv, k+"*"+v)
+			}
+			sort.Strings(kv)
+			return strings.Join(kv, "|")
+		}
+		ctrWant := make([]uint64, len(tagsets))
+		for mask := 0; mask < 1<<uint(len(tagsets)); mask++ {
+			nobs := make([]int, len(tagsets))
+			for i := range tagsets {
+				if mask&(1<<uint(i)) != 0 {
+					nobs[i] = 2 + i + mask%3
+					for j := 0; j < nobs[i]; j++ {
+						metrics.ObserveHist(hids[i], uint64(1000*(i+1)+j))
+					}
+				}
+				metrics.IncCounterBy(cids[i], uint64(i+1))
+				ctrWant[i] += uint64(i + 1)
+				metrics.SetIntGauge(gids[i], uint64(100*mask+i))
+			}
+			rec := httptest.NewRecorder()
+			http.DefaultServeMux.ServeHTTP(rec, httptest.NewRequest("GET", "/metrics", nil))
+			// series -> statistic -> value, for the lines of this section's metrics
+			type ser struct{ name, user string }
+			got := map[ser]map[string]string{}
+			problem := ""
+			for _, ln := range strings.Split(rec.Body.String(), "\n") {
+				sp := strings.LastIndexByte(ln, ' ')
+				if sp < 0 || !strings.Contains(ln[:sp], name) {
+					continue
+				}
+				parts := strings.Split(ln[:sp], "|")
+				if strings.HasPrefix(parts[0], "bhist_") {
+					continue
+				}
+				user := metrics.Tags{}
+				stat, dtype := "", ""
+				for _, t := range parts[1:] {
+					i := strings.IndexByte(t, '*')
+					if i < 0 {
+						continue
+					}
+					switch t[:i] {
+					case "statistic":
+						stat = t[i+1:]
+					case "dataType":
+						dtype = t[i+1:]
+					case "type":
+					default:
+						user[t[:i]] = t[i+1:]
+					}
+				}
+				k := ser{parts[0], userKey(user)}
+				if got[k] == nil {
+					got[k] = map[string]string{}
+				}
+				sk := stat + "/" + dtype
+				if _, dup := got[k][sk]; dup && problem == "" {
+					problem = fmt.Sprintf("series %s{%s} reports %q twice", k.name, k.user, stat)
+				}
+				got[k][sk] = ln[sp+1:]
+			}
+			u64 := func(m map[string]string, k string) (uint64, bool) {
+				v, err := strconv.ParseUint(m[k], 10, 64)
+				return v, err == nil
+			}
+			for i, ts := range tagsets {
+				if problem != "" {
+					break
+				}
+				h := got[ser{"hist_" + name, userKey(ts)}]
+				cnt, ok := u64(h, "count/uint64")
+				switch {
+				case !ok:
+					problem = fmt.Sprintf("histogram {%s}: no count on the page", userKey(ts))
+				case cnt != uint64(nobs[i]):
+					problem = fmt.Sprintf("histogram {%s}: %d observations in the period, count reported %d", userKey(ts), nobs[i], cnt)
+				}
+				for _, pn := range pctlNames {
+					v, ok := u64(h, pn+"/uint64")
+					if problem != "" {
+						break
+					}
+					if nobs[i] == 0 {
+						if ok {
+							problem = fmt.Sprintf("histogram {%s}: idle in the period but %s = %d reported", userKey(ts), pn, v)
+						}
+						continue
+					}
+					if !ok {
+						problem = fmt.Sprintf("histogram {%s}: %d observations but no %s on the page", userKey(ts), nobs[i], pn)
+					} else if v < uint64(1000*(i+1)) || v > uint64(1000*(i+1)+nobs[i]-1) {
+						problem = fmt.Sprintf("histogram {%s}: observations %d..%d, %s reported as %d", userKey(ts), 1000*(i+1), 1000*(i+1)+nobs[i]-1, pn, v)
+					}
+				}
+				if problem != "" {
+					break
+				}
+				if v, ok := u64(got[ser{name + "_ctr", userKey(ts)}], "/uint64"); !ok || v != ctrWant[i] {
+					problem = fmt.Sprintf("counter {%s}: increments sum to %d, page says %d (present=%v)", userKey(ts), ctrWant[i], v, ok)
+				} else if v, ok := u64(got[ser{name + "_gauge", userKey(ts)}], "/uint64"); !ok || v != uint64(100*mask+i) {
+					problem = fmt.Sprintf("gauge {%s}: set to %d, page says %d (present=%v)", userKey(ts), 100*mask+i, v, ok)
+				}
+			}
+			c.Eval(1)
+			c.Distinct(fmt.Sprintf("tagged|%d", mask))
+			c.Nontrivial(fmt.Sprintf("tagged|%d", mask))
+			if problem != "" {
+				c.Violation("C18 tagged-series", fmt.Sprintf("five histograms, counters and gauges sharing a name and differing in tags, busy histograms = bitmask %05b: %s", mask, problem), map[string]interface{}{"mask": mask})
+				break
+			}
+		}
+	}
+
 	// ---- counters: sequential sums, then a free-running concurrent pass (sampler) --------------
 	if c.Mine(1) {
 		ctr := metrics.AddCounter(fmt.Sprintf("verifctr%d", c.Shard), nil)
